@@ -133,10 +133,10 @@ func (u *memoryManagementUnit) pushLineToL3(addr comp.AlignedAddress, line []int
 			break
 		}
 	}
-	if len(evicted) == 0 {
+	if evicted == nil {
 		return
 	}
-	u.writeToMemory(int32(addr), line)
+	u.writeToMemory(int32(evicted.Boundary[0]), evicted.Data)
 }
 
 // flushPendings forgets the line fetches of the execute units that a pipeline
